@@ -59,11 +59,45 @@ func accStr(p *tak.Position) string {
 			}
 		}
 	}
+	// what At and AllMoves return belongs to the caller: overwrite it and look again
+	for y := 0; y < n; y++ {
+		for x := 0; x < n; x++ {
+			sq := p.At(x, y)
+			for i := range sq {
+				sq[i] = tak.Piece(0xEE)
+			}
+		}
+	}
+	ms := p.AllMoves(nil)
+	for i := range ms {
+		ms[i] = tak.Move{X: -9, Y: -9, Type: 77, Slides: 0xFFFFFFFF}
+	}
+	scribble := "ok"
+	for y := 0; y < n && scribble == "ok"; y++ {
+		for x := 0; x < n; x++ {
+			t := p.Top(x, y)
+			sq := p.At(x, y)
+			if (t == 0) != (len(sq) == 0) || len(sq) > 0 && sq[0] != t {
+				scribble = "at-result-shared"
+				break
+			}
+			for _, pc := range sq {
+				if pc == tak.Piece(0xEE) {
+					scribble = "at-result-shared"
+				}
+			}
+		}
+	}
+	for _, m := range p.AllMoves(nil) {
+		if m.Type == 77 {
+			scribble = "allmoves-result-shared"
+		}
+	}
 	an := p.Analysis()
 	over, w := p.GameOver()
-	return fmt.Sprintf("sz=%d tm=%s mn=%d ws=%d bs=%d tops=%s road=%s wg=%s bg=%s over=%d%s",
+	return fmt.Sprintf("sz=%d tm=%s mn=%d ws=%d bs=%d tops=%s road=%s wg=%s bg=%s over=%d%s own=%s",
 		n, colorStr(p.ToMove()), p.MoveNumber(), p.WhiteStones(), p.BlackStones(), tops.String(), road.String(),
-		sortedU64(an.WhiteGroups), sortedU64(an.BlackGroups), b2i(over), colorStr(w))
+		sortedU64(an.WhiteGroups), sortedU64(an.BlackGroups), b2i(over), colorStr(w), scribble)
 }
 
 func init() {
